@@ -170,6 +170,7 @@ struct World {
     bus->setProtocol(proto);
     if (!wo.configPath.empty()) {
       loadResult = scan->loadConfigFiles(true);
+      if (loadResult == RESULT_OK) scan->executeInstructions(bus.get());      // as main.cpp does: resolves the conditions
     } else if (!wo.definitions.empty()) {
       std::istringstream in(wo.definitions);
       loadResult = messages->readFromStream(&in, "world.csv", 1, true, nullptr, &loadError);
